@@ -623,6 +623,9 @@ class C10(ClientProp):
                     ids = [rng.choice([k, rng.randrange(256), 0, 255]) for k in range(nrec)]
                     recs = [{"id": i, "mask": rng.choice([0, 2, 4, 84, 126, 254, 2 * rng.randrange(128)]), "enabled": rng.randrange(2),
                              "start": now + rng.randrange(-2 * 86400, 2 * 86400), "end": now + rng.randrange(-2 * 86400, 2 * 86400)} for i in ids]
+                    for r in recs:          # the corners of "duration": same minute, one minute short of a day, a whole day apart
+                        if rng.random() < 0.3:
+                            r["end"] = r["start"] + rng.choice([0, 0, 1, 59, -60, 60, 86400, -86400, 86340, 3600, -3600])
                     ops.append({"op": "get_schedules", "a": {"zone": rules},
                                 "replies": [login(rng), {"t": "sched", "seed": rng.randrange(1 << 30), "recs": recs}]})
                 ops.append({"op": "get_schedules", "a": {"zone": rules}, "replies": [login(rng), {"t": "eof"}]})
